@@ -376,6 +376,10 @@ func (ex *Exec) step(st *State, fr *Frame, in ssa.Instruction) bool {
 		it := &IterInfo{m: x}
 		if mt, ok := in.X.Type().Underlying().(*types.Map); ok {
 			it.mt = mt
+			ks := u.sortOf(mt.Key())
+			fc.declSort(ks)
+			as := ArrOf(ks, SBool)
+			it.visited = &Term{fmt.Sprintf("((as const %s) false)", as), as}
 		} else {
 			it.isStr = true
 		}
@@ -388,7 +392,12 @@ func (ex *Exec) step(st *State, fr *Frame, in ssa.Instruction) bool {
 		}
 		k := fc.freshOf("rng_k", it.mt.Key())
 		v := fc.mapLookup(st.heap, it.mt, it.m.T, k)
-		st.assume(Implies(ok, fc.mapHas(st.heap, it.mt, it.m.T, k)))
+		st.assume(Implies(ok, And(fc.mapHas(st.heap, it.mt, it.m.T, k), Not(Select(it.visited, k)))))
+		// exhausted: every key of the map has been visited
+		fc.qn++
+		qk := &Term{fmt.Sprintf("k!q%d", fc.qn), k.Sort}
+		st.assume(Implies(Not(ok), &Term{fmt.Sprintf("(forall ((%s %s)) %s)", qk.S, qk.Sort, Implies(fc.mapHas(st.heap, it.mt, it.m.T, qk), Select(it.visited, qk)).S), SBool}))
+		it.visited = Ite(ok, Store(it.visited, k, TTrue), it.visited)
 		ex.setVal(st, in, SVal{Val: Val{Tuple: []Val{{T: ok, Typ: types.Typ[types.Bool]}, {T: k, Typ: it.mt.Key()}, {T: v, Typ: it.mt.Elem()}}}})
 	case *ssa.Defer:
 		fnv := ex.val(st, in.Call.Value)
